@@ -289,6 +289,43 @@ func NewEvaluator(p *Program, cfg EvalConfig) *Evaluator {
 	return &Evaluator{P: p, TS: NewTerms(), Cfg: cfg}
 }
 
+// isProtocol: the callee is one of the functions rules look for by name. A function that merely shares such a name
+// but did not exist in the reviewed tree (a new helper called execute in another package, say) is not.
+func (ev *Evaluator) isProtocol(callee *ssa.Function) bool {
+	if !protocolNames[canonName(callee)] {
+		return false
+	}
+	if callee.Object() != nil && callee.Object().Exported() {
+		return true
+	}
+	if _, known := refParamNames(ev.P.CanonFuncName(callee)); known {
+		return true
+	}
+	// registered under an upstream name by a role (possibly with a different receiver shape)
+	if ev.P.aliased == nil {
+		ev.P.aliased = map[*ssa.Function]bool{}
+		refParamNames("")
+		for name := range refPrints {
+			if f := ev.P.byName[name]; f != nil {
+				ev.P.aliased[f] = true
+			}
+		}
+	}
+	return ev.P.aliased[callee]
+}
+
+// assertedTypeString names the type of a type assertion; an interface type declared in the library itself is
+// named by its method set, so that `interface{ Unwrap() error }` and a named `type unwrapper interface{ Unwrap() error }`
+// are the same test.
+func assertedTypeString(t types.Type) string {
+	if n, ok := t.(*types.Named); ok && n.Obj().Pkg() != nil && strings.HasPrefix(n.Obj().Pkg().Path(), modPath) && !n.Obj().Exported() {
+		if _, isI := n.Underlying().(*types.Interface); isI {
+			return types.TypeString(n.Underlying(), nil)
+		}
+	}
+	return types.TypeString(t, nil)
+}
+
 // onlyCalled: the closure value is used for nothing but being called where it was made (never passed on, stored,
 // returned or started as a goroutine): a local helper.
 func onlyCalled(t *T) bool {
@@ -1411,7 +1448,7 @@ func (ev *Evaluator) evalValue(st *State, fr *Frame, v ssa.Value) (*T, []*State)
 	case *ssa.TypeAssert:
 		a := ev.val(st, fr, x.X)
 		if x.CommaOk {
-			ok := ts.intern(&T{Op: "app", Aux: "typeok:" + types.TypeString(x.AssertedType, nil), Args: []*T{a}, Typ: types.Typ[types.Bool]})
+			ok := ts.intern(&T{Op: "app", Aux: "typeok:" + assertedTypeString(x.AssertedType), Args: []*T{a}, Typ: types.Typ[types.Bool]})
 			return ts.intern(&T{Op: "tuple", Args: []*T{a, ok}}), nil
 		}
 		return a, nil
@@ -1703,7 +1740,7 @@ func (ev *Evaluator) doCall(st *State, fr *Frame, c *ssa.CallCommon, instr ssa.I
 			inline = ev.Cfg.Inline(callee, depth)
 		}
 		if !inline && !ev.Cfg.NoSamePkgInline && !c.IsInvoke() && e.FnTerm == nil && callee.Parent() == nil && callee.Pkg != nil && callee.Pkg == ev.rootPkg && ev.P.InScope[callee] &&
-			!protocolNames[canonName(callee)] && !ev.Cfg.Opaque[canonName(callee)] {
+			!ev.isProtocol(callee) && !ev.Cfg.Opaque[canonName(callee)] {
 			inline = true
 		}
 		// no recursion
